@@ -163,7 +163,7 @@ def run(ctx):
             other_sends = [e for e in after if e.kind == "call" and e.a == DRV + "send" and e not in my_sends]
             ck.ob("C10-R3", fn, "step-segment:no-foreign-send", not other_sends)
     ck.floor("C10-R3", "step-sites-on-segments", nstep, 1)
-    ck.floor("C10-R4", "send-events-on-segments", nsend, 4)
+    ck.floor("C10-R4", "send-events-on-segments", nsend, 2)
 
     # ---- R6 time-out while idle and interruption: back to POLL silently
     for s in M.from_("POLL"):
@@ -210,7 +210,7 @@ def run(ctx):
             ok = bool(from_reader) and bool(eagain) and bool(sys_)
             ck.ob("C10-R7", path, "Busy-only-on-the-reader's-Err(Sys(EAGAIN))", ok,
                   detail=None if ok else "Next::Busy returned under guards %s" % [(show(a)[:50], v) for a, v in gs][:5])
-    ck.floor("C10-R7", "Busy-returning-paths", nbusy, 2)
+    ck.floor("C10-R7", "Busy-returning-paths", nbusy, 1)
     ck.ob("C10-R7", "-", "readers-behind-the-adapters", len(readers) == 2, detail=str(sorted(readers)))
     from .c20 import _is_err_of
     for rd in sorted(readers):
